@@ -727,6 +727,12 @@ func (ru *runner) runScenario(sc scenario) {
 			} else {
 				r.Bucket("partial_index_valid_entries_applied", 1)
 			}
+			if isIdxDup(f.Kind) && live && pre[tRLb] > 0 {
+				// the class that needs a history: rl_b had a previous version
+				// when an index listed it twice
+				r.Bucket("partial_index_duplicate_key_rounds_with_previous_version", 1)
+				r.Bucket("partial_index_duplicate_key/"+f.Kind, 1)
+			}
 		}
 		if f == nil {
 			hadGood = true
@@ -868,6 +874,9 @@ func applicable() []faultSpec {
 		out = append(out, faultSpec{k, tIdx})
 	}
 	for _, k := range idxKnownKinds {
+		out = append(out, faultSpec{k, tIdx})
+	}
+	for _, k := range idxDupKinds {
 		out = append(out, faultSpec{k, tIdx})
 	}
 	return out
@@ -1058,6 +1067,7 @@ func TestCheck(t *testing.T) {
 	r.Require("cache_files_compared", 3000)
 	r.Require("restarts_ok", 100)
 	r.Require("partial_index_valid_entries_applied", 8)
+	r.Require("partial_index_duplicate_key_rounds_with_previous_version", 5)
 	r.Require("kills", 90)
 	r.Require("kills/stall", 30)
 	r.Require("kills/inject", 40)
